@@ -70,7 +70,26 @@ type ReqInfo struct {
 	lastLabel string
 	dead      bool
 	sproc     *sched.Proc
+	timer     *manualDeadline
 }
+
+// manualDeadline a request context whose deadline "passes" when the script says so
+type manualDeadline struct {
+	context.Context
+	once sync.Once
+	done chan struct{}
+}
+
+func (m *manualDeadline) Done() <-chan struct{} { return m.done }
+func (m *manualDeadline) Err() error {
+	select {
+	case <-m.done:
+		return context.DeadlineExceeded
+	default:
+		return nil
+	}
+}
+func (m *manualDeadline) fire() { m.once.Do(func() { close(m.done) }) }
 
 // DispCfg a dispatcher configuration
 type DispCfg struct {
@@ -495,6 +514,11 @@ func (w *World) DoBody(proc, disp, method, host, uri string, hdr http.Header, cs
 		req.Header[k] = v
 	}
 	req.Header.Set("X-Verif-Rid", strconv.Itoa(ri.Rid))
+	if proc != "" {
+		// the proxy's timer, in the hands of the script: outcome "timeout" fires it
+		ri.timer = &manualDeadline{Context: req.Context(), done: make(chan struct{})}
+		req = req.WithContext(ri.timer)
+	}
 	if req.Header.Get("X-Verif-Client-Gone") != "" {
 		// a client that has gone away already: the request's context is cancelled
 		ctx, cancel := context.WithCancel(req.Context())
@@ -543,7 +567,7 @@ func (w *World) finish(ri *ReqInfo, code int, h http.Header, body []byte, res *R
 		res.Ver = 0
 	} else if code >= 400 && h.Get("X-Ver") == "" {
 		// an error generated by pike: caused by the upstream outcome, or its own
-		if ri.used.Kind == "error" {
+		if ri.used.Kind == "error" || ri.used.Kind == "timeout" {
 			errClass = "upstream"
 		} else {
 			errClass = "own"
@@ -860,6 +884,20 @@ func (w *World) upstreamHandler(rw http.ResponseWriter, req *http.Request) {
 	}
 	if out.Kind == "" {
 		out.Kind = "uncacheable"
+	}
+	if out.Kind == "timeout" {
+		// the origin stays silent and the proxy's timer fires
+		w.mu.Lock()
+		w.emitLocked(Event{"op": "UpEnd", "r": ri.Rid, "hasResp": false, "ttl": 0})
+		w.mu.Unlock()
+		if ri.timer != nil {
+			ri.timer.fire()
+		}
+		select {
+		case <-req.Context().Done():
+		case <-time.After(2 * time.Second):
+		}
+		panic(http.ErrAbortHandler)
 	}
 	if out.Kind == "error" {
 		w.mu.Lock()
